@@ -244,6 +244,60 @@ def tr_project(fn):
   return defaults, merged, problem
 
 
+def tr_zmm(fn):
+  """utils.zmm(x, keep, axis=0, fn=None): the two uses the library makes of it - keep a range of rows (axis 0), keep one column (axis 1) -
+  are emitted as two definitions, each from ITS branch of the `if axis == 0 / elif axis == 1 / else: raise` statement."""
+  a = fn.args
+  if [x.arg for x in a.args] != ['x', 'keep', 'axis', 'fn'] or [un(d) for d in a.defaults] != ['0', 'None']:
+    U(fn, 'parameters')
+  b = [s for s in fn.body if not (isinstance(s, ast.Expr) and isinstance(s.value, ast.Constant))]
+  if len(b) != 3 or un(b[0]) != 'r = np.zeros(x.shape)' or un(b[2]) != 'return r' or not isinstance(b[1], ast.If):
+    U(fn, 'body')
+  st = b[1]
+  if un(st.test) != 'axis == 0' or len(st.orelse) != 1 or not isinstance(st.orelse[0], ast.If) or un(st.orelse[0].test) != 'axis == 1':
+    U(st, 'axis dispatch')
+  el = st.orelse[0]
+  if len(el.orelse) != 1 or not isinstance(el.orelse[0], ast.Raise):
+    U(el, 'other axes must raise')
+
+  def branch(body, rows):
+    if len(body) != 2 or not all(isinstance(s, ast.Assign) for s in body):
+      U(st, 'branch')
+    g, p = body
+    sel = 'x[keep, :]' if rows else 'x[:, keep]'
+    if not (isinstance(g.targets[0], ast.Name) and un(g.value) == sel):
+      U(g, 'selection')
+    i = g.targets[0].id
+    tgt = 'r[keep, :]' if rows else 'r[:, keep]'
+    if un(p.targets[0]) != tgt or not isinstance(p.value, ast.IfExp) or un(p.value.test) != 'fn' or un(p.value.orelse) != i or \
+       un(p.value.body) != 'fn(%s).reshape(%s.shape)' % (i, i):
+      U(p, 'assignment')
+    if rows:
+      return ('(let r_ := mconst (length x) (ncols x) n0 in let %s := get_rows a r x in '
+              'set_rows a (match fn with Some f => reshape (length %s) (ncols %s) (f %s) | None => %s end) r_)' % (i, i, i, i, i))
+    return ('(let r_ := mconst (length x) (ncols x) n0 in let %s := get_col k x in '
+            'set_col k (match fn with Some f => f %s | None => %s end) r_)' % (i, i, i))
+  return branch(st.body, True), branch(el.body, False)
+
+
+def gen_zmm(fns):
+  out, tr, untr = [], [], []
+  try:
+    if 'zmm' not in fns:
+      raise Unsupported('?:Module:zmm not found')
+    rows, col = tr_zmm(fns['zmm'])
+    tr.append('zmm_gen')
+    out.append('(* utils.py: zmm *)')
+  except Unsupported as e:
+    rows = 'set_rows a (match fn with Some f => reshape r (ncols x) (f (get_rows a r x)) | None => get_rows a r x end) (mconst (length x) (ncols x) n0)'
+    col = 'set_col k (match fn with Some f => f (get_col k x) | None => get_col k x end) (mconst (length x) (ncols x) n0)'
+    untr.append('zmm_gen')
+    out.append('(* utils.py: zmm NOT TRANSLATED (%s): alias of the hand-written model, tie falls back to the correspondence *)' % str(e).replace('*)', '* )'))
+  out.append('Definition zmm_rows_gen (x : list (list A)) (a r : nat) (fn : option (list (list A) -> list A)) : list (list A) :=\n  %s.\n' % rows)
+  out.append('Definition zmm_col_gen (x : list (list A)) (k : nat) (fn : option (list A -> list A)) : list (list A) :=\n  %s.\n' % col)
+  return out, tr, untr
+
+
 def gen_project(fns):
   out, tr, untr = [], [], []
   try:
@@ -287,6 +341,10 @@ def gen_utils(repo):
       untranslated.append(name + '_gen')
       out.append('(* utils.py: %s NOT TRANSLATED (%s): alias of the hand-written model, tie falls back to the correspondence *)' % (name, str(e).replace('*)', '* )')))
     out.append(head + '\n  ' + body + '.\n')
+  zo, ztr, zuntr = gen_zmm(fns)
+  out += zo
+  translated += ztr
+  untranslated += zuntr
   po, ptr, puntr = gen_project(fns)
   out += po
   translated += ptr
